@@ -58,6 +58,12 @@ def make_content(spec):
     if kind == 'headrun':  # a run of one byte (one long zlib match) followed by incompressible bytes
         head = min(length, 300 + seed % 4700)
         return bytes([seed % 251]) * head + rng.randbytes(length - head)
+    if kind == 'periodic':
+        # one incompressible block longer than zlib's 32 KiB window, repeated: a sparse sampler sees the same bytes again
+        # and again (looks very compressible), a real deflate stream does not shrink at all
+        period = [40000, 65536, 100000][seed % 3]
+        block = rng.randbytes(min(period, length))
+        return (block * (length // len(block) + 1))[:length]
     raise HarnessError(f'unknown content kind {kind}')
 
 
@@ -74,7 +80,12 @@ def make_pool_specs(rng, n_small=10, n_big=0, big_cap=None):
         length = rng.choice(BIG_LENGTHS + [rng.randint(60000, 700000)])
         if big_cap:
             length = min(length, big_cap)
-        specs.append([rng.choice(kinds), length, rng.randrange(1 << 30)])
+        kind = rng.choice(kinds + ['periodic'])
+        if kind == 'periodic':
+            length = rng.choice([524288, 8 * 40000, 10 * 65536, 6 * 100000, 400000])
+            if big_cap:
+                length = min(length, big_cap)
+        specs.append([kind, length, rng.randrange(1 << 30)])
     return specs
 
 
@@ -400,7 +411,28 @@ class World:  # pylint: disable=too-many-instance-attributes,too-many-public-met
             return ShortReadStream(data, seed)
         if via == 'file':
             return open(self.new_input_file(data), 'rb')  # pylint: disable=consider-using-with
+        if via == 'offset':
+            # a caller stream that is not positioned at its start (e.g. a header was consumed before handing it over)
+            stream = io.BytesIO(self.offset_prefix(seed) + data)
+            stream.seek(len(self.offset_prefix(seed)))
+            return stream
         return io.BytesIO(data)
+
+    @staticmethod
+    def offset_prefix(seed):
+        return b'HDR%d:' % (seed % 1000)
+
+    def stored_from_offset_stream(self, side, got, data, seed, where):
+        """What a stream handed over at a non-zero position stores: the bytes from its position on - or, on the one path
+        that documents a rewind (no_holes with a second pass), the whole stream. Either way the key handed back must be
+        the digest of exactly the bytes that are then stored under it (the views / raw oracles check that)."""
+        whole = self.offset_prefix(seed) + data
+        if got == hkey(side.hash_type, data):
+            return data
+        if got == hkey(side.hash_type, whole):
+            return whole
+        self.fail('wrong-key', f'{where}: stream handed over at offset {len(whole) - len(data)}: returned key {got} is neither the digest of the remaining bytes nor of the whole stream')
+        return None
 
     # each op_* returns an info dict (consumed by oracles)
     def op_add_loose(self, side, op):
@@ -426,6 +458,9 @@ class World:  # pylint: disable=too-many-instance-attributes,too-many-public-met
                     stream.close()
                 if via == 'short':
                     self.stats['short_reads'] += stream.short
+        if via == 'offset':
+            data = self.stored_from_offset_stream(side, got, data, op.get('seed', 0), 'add_streamed_object')
+            expected = got
         if got != expected:
             self.fail('wrong-key', f'add_loose via={via} returned {got} expected {expected} len={len(data)}')
         side.model[expected] = data
@@ -487,6 +522,12 @@ class World:  # pylint: disable=too-many-instance-attributes,too-many-public-met
                         stream, callback=recorder, callback_size_hint=len(data) if recorder else 0, **kwargs
                     )
                 )
+        if via == 'offset' and api in ('streams', 'single') and len(got) == len(datas):
+            datas = [
+                self.stored_from_offset_stream(side, key, data, op.get('seed', 0) + i, f'add_pack api={api}')
+                for i, (key, data) in enumerate(zip(got, datas))
+            ]
+            expected = [hkey(side.hash_type, d) for d in datas]
         if list(got) != expected:
             self.fail('wrong-key', f'add_pack api={api} returned {got} expected {expected}')
         datas = pending_datas + datas
@@ -542,6 +583,13 @@ class World:  # pylint: disable=too-many-instance-attributes,too-many-public-met
             key = self.model_key(side, j)
             if key is not None and key not in present:
                 present.append(key)
+        if op.get('mass_range'):
+            # a run of consecutively inserted objects of an earlier mass batch (>= 1000 consecutive index ids)
+            mseed, lo, hi = op['mass_range']
+            for i in range(lo, hi):
+                key = hkey(side.hash_type, b'mass-%d-%d' % (mseed, i))
+                if key in side.model and key not in present:
+                    present.append(key)
         extra_absent = []
         if 'concrete' in op:  # engine B: keys resolved once, so that a re-run targets the same objects
             extra_absent = [k for k in op['concrete'] if k not in side.model]
